@@ -162,12 +162,16 @@ func (c *c16ctx) checkSingle(costs map[string]float64, on *term.Term) {
 	boolOrders(on, onOrders)
 	for key, src := range offOrders {
 		dst := onOrders[key]
-		pos := map[string]int{}
+		pos, cnt := map[string]int{}, map[string]int{}
 		for i, k := range dst {
 			pos[canonKey(k)] = i
+			cnt[canonKey(k)]++
 		}
 		for i := 0; i < len(src); i++ {
 			for j := i + 1; j < len(src); j++ {
+				if cnt[canonKey(src[i])] > 1 || cnt[canonKey(src[j])] > 1 {
+					continue // identical siblings (repeated variables) have no observable position
+				}
 				if shape(src[i], costs) == shape(src[j], costs) && !classEntry(costs) {
 					if pos[canonKey(src[i])] > pos[canonKey(src[j])] {
 						c.r.Violate("unstable", c.p.Src+fmt.Sprint(costs), sprintf("operands %s and %s have equal estimated cost but lost their source order", src[i].Src(), src[j].Src()),
@@ -195,8 +199,10 @@ func (c *c16ctx) checkPair(name string, mLo, mHi map[string]float64, tLo, tHi *t
 			continue // confinement violation reported elsewhere
 		}
 		posLo, posHi := map[string]int{}, map[string]int{}
+		dup := map[string]int{}
 		for i, k := range a {
 			posLo[canonKey(k)] = i
+			dup[canonKey(k)]++
 		}
 		for i, k := range b {
 			posHi[canonKey(k)] = i
@@ -204,8 +210,8 @@ func (c *c16ctx) checkPair(name string, mLo, mHi map[string]float64, tLo, tHi *t
 		for _, x := range a {
 			for _, y := range a {
 				kx, ky := canonKey(x), canonKey(y)
-				if kx == ky {
-					continue
+				if kx == ky || dup[kx] > 1 || dup[ky] > 1 {
+					continue // identical siblings (repeated variables) have no observable position
 				}
 				mx, my := mentions(x, name, mLo), mentions(y, name, mLo)
 				d := func() map[string]interface{} {
@@ -237,7 +243,7 @@ func c16(r *rep.Run) {
 		max = 8
 		r.SetBudget(1800e9)
 	}
-	r.Rule = "every and/or/not/if/compare/registered-operator tree up to the node bound with pairwise distinct variables, plus wide and/or nodes of 2..40 operands (flat and produced by flattening) with tied costs; cost maps: every single entry (each variable, each operator name, the `variable` and `operator` class defaults) at every rung of the ladder {-100, 0, 0.5, 5, 1e3, 1e9}, alone and next to one other priced name, and EVERY pair of maps differing in that one entry (lo < hi); other optimisations all off and all on. Oracles on the parsed Dump trees: (a) Reordering-on tree == Reordering-off tree up to permutation of and/or operand lists only; (b) siblings of identical shape after replacing variables by their price keep source order (stability, no cost formula needed); (c) raising an entry never moves an operand mentioning it ahead of a sibling that does not; (d) at 1e9 every mentioning operand follows every non-mentioning one; (e) siblings not mentioning the entry keep their relative order across the two maps. non-trivial = (program, map) pairs in which Reordering actually changed an order"
+	r.Rule = "every and/or/not/if/compare/registered-operator tree up to the node bound with pairwise distinct variables and with every two same-typed variables merged into one (repeated mentions), plus wide and/or nodes of 2..40 operands (flat and produced by flattening) with tied costs; cost maps: every single entry (each variable, each operator name, the `variable` and `operator` class defaults) at every rung of the ladder {-100, 0, 0.5, 5, 1e3, 1e9}, alone and next to one other priced name (at -100, 1e3 and, for the first name, 5e6), and EVERY pair of maps differing in that one entry (lo < hi); other optimisations all off and all on. Oracles on the parsed Dump trees: (a) Reordering-on tree == Reordering-off tree up to permutation of and/or operand lists only; (b) siblings of identical shape after replacing variables by their price keep source order (stability, no cost formula needed); (c) raising an entry never moves an operand mentioning it ahead of a sibling that does not; (d) at 1e9 every mentioning operand follows every non-mentioning one; (e) siblings not mentioning the entry keep their relative order across the two maps. non-trivial = (program, map) pairs in which Reordering actually changed an order"
 	r.Assume = []string{"'mentions' means: contains the variable / an application of the operator (for the class defaults: one without an entry of its own)",
 		"ladder of 6 cost values, not all float64 values; NaN and infinities are covered under C02 (meaning) only, since the statement's order laws presuppose comparable costs"}
 	r.Cov["bounds"] = map[string]int{"max_nodes": max}
@@ -254,7 +260,19 @@ func c16(r *rep.Run) {
 			keep = append(keep, p)
 		}
 	}
-	progs = keep
+	// the same trees with two variables merged into one (a name mentioned by
+	// several operands / several times in one operand)
+	mergeMax := max - 1
+	progs = withMerged(keep, mergeMax)
+	{
+		n, b := func() *term.Term { return term.KeptVar("n0", I) }, func() *term.Term { return term.KeptVar("b0", B) }
+		o := func() *term.Term { return term.Var("b", B) }
+		progs = append(progs,
+			MkProg(term.Op("and", B, term.Op("=", B, n(), term.Const(1)), o(), term.Op("<", B, n(), term.Const(5)), o())),
+			MkProg(term.Op("or", B, term.Op("p", B, b()), o(), term.Op("not", B, b()), o(), b())),
+			MkProg(term.Op("and", B, term.Op("<", B, n(), term.Var("n", I)), term.Op("=", B, term.Var("n", I), term.Const(2)), o(), term.Op("=", B, n(), n()))),
+			MkProg(term.Op("and", B, term.Op("or", B, b(), o()), o(), term.Op("or", B, o(), b()))))
+	}
 	// wide families
 	for _, k := range []int{2, 3, 5, 8, 11, 12, 13, 14, 16, 20, 25, 33, 40} {
 		kids := make([]*term.Term, k)
@@ -347,6 +365,9 @@ func c16(r *rep.Run) {
 			for k, o := range names {
 				if k < 2 || k == len(names)-1 {
 					contexts = append(contexts, ctxm{o: -100}, ctxm{o: 1e3})
+				}
+				if k == 0 {
+					contexts = append(contexts, ctxm{o: 5e6}) // another name far more expensive than any default
 				}
 			}
 			for _, name := range names {
